@@ -68,14 +68,14 @@ def leaves(t):
     if x in seen:
       return
     seen.add(x)
-    if x.op == 'sym':
+    if x.op == 'sym' or (x.op == 'obj' and x.args[1] == 'self'):
       out.add(x)
       return
     if x.op == 'attr':
       p = x
       while p.op == 'attr':
         p = p.args[0]
-      if p.op == 'sym':
+      if p.op == 'sym' or (p.op == 'obj' and p.args[1] == 'self'):
         out.add(x)
         return
     for c in children(x):
@@ -92,6 +92,9 @@ def path_str(t):
   if t.op == 'sym':
     parts.append(str(t.args[-1]))
     return '.'.join(reversed(parts))
+  if t.op == 'obj' and t.args[1] == 'self':
+    parts.append('self')
+    return '.'.join(reversed(parts))
   return None
 
 
@@ -99,13 +102,15 @@ def dep_names(t):
   """Field-sensitive dependence set as strings: 'grad', 'state.momentum', 'cfg:beta1'."""
   out = set()
   for l in leaves(t):
-    if l.op == 'sym':
+    if l.op == 'obj':
+      out.add('self')
+    elif l.op == 'sym':
       out.add(('cfg:' if l.args[0] == 'cfg' else '') + str(l.args[-1]))
     else:
       p = l
       while p.op == 'attr':
         p = p.args[0]
-      out.add(('cfg:' if p.args[0] == 'cfg' else '') + path_str(l))
+      out.add(('cfg:' if (p.op == 'sym' and p.args[0] == 'cfg') else '') + path_str(l))
   return out
 
 
